@@ -2,30 +2,49 @@
 
 Bounded-exhaustive exploration of `opticomlib.devices.FBG`:
 
-* part `lattice`  : deviation lattice (k <= 2 quick, k <= 3 thorough) around one baseline design over
-                    (fs, input length incl. two odd lengths, layout, input field, filtfilt, kL, vdneff, F,
-                    apodisation (4 names, their 4 callable twins, 2 seeded smooth positive callables and one
-                    asymmetric tilt), specification route {fc, landa_D} x {kL, L, N}).
-* part `corners`  : the 16 corners of (fs, n, vdneff, kL) (4 deviations - not reached by the lattice), uniform/F=0
-                    (quick) and x {uniform, gaussian} x {F=0, F=20} (thorough).
+* part `lattice`  : deviation lattice (k <= 2, both tiers; the thorough tier uses the longer alphabets) around one
+                    baseline design over 17 axes: sampling rate, input length (powers of two, odd, prime, non-smooth,
+                    even non-power-of-two), layout (1/2 polarisations, second one zero, n_pol=2, noise forms),
+                    input field (content, sample dtype, scale), filtfilt, call form (retH / no retH / print / positional),
+                    kL, kL form (whole number of periods | the exact number), vdneff, F, apodisation (names, callable
+                    twins in several callable forms, seeded smooth positive callables, three profiles that are not even
+                    in z), specification route {fc, landa_D} x {kL, L, N}, scalar type of the design numbers,
+                    grid history (how gv was configured, wavelength, slot count, reconfiguration), offset of the
+                    Bragg frequency from gv.f0.
+* part `lattice3` : (thorough) the designs with exactly 3 deviations over the 10 design axes of the first release.
+* part `limits`   : the box kL {0.1, 0.1+ulp, 8-ulp, 8} x vdneff {1e-5, +ulp, 1e-3-ulp, 1e-3} x F {-20, -20+ulp, 0,
+                    20-ulp, 20} with the EXACT numbers (no rounding to whole periods) x apodisations (weak gratings
+                    with a peak reflectivity below 1 % included: they must compute).
+* part `corners`  : the 16 corners of (fs, n, vdneff, kL) (4 deviations - not reached by the lattice), exact kL,
+                    uniform/F=0 (quick) and x {uniform, gaussian} x {F=0, F=20} (thorough).  Contains the grating that
+                    is narrower than one bin (kL 8, vdneff 1e-5, 2^8 samples at 400 GS/s) for the closed-form clause.
 * part `product`  : (thorough) the full product kL x vdneff x apodisation x F at a sampling rate that
                     resolves the stop band.
-* part `spec`     : all 2^7 presence/absence patterns of {landa_D, fc, kL, L, N, dneff, vdneff} (one
-                    consistent value set quick, two thorough): under-determined gratings must raise
+* part `seq`      : call sequences in ONE process on ONE shared input object: every ordered pair (a, b) of a menu of
+                    calls is run as b, a, b' (b' takes the output of a as its input when the lengths agree); the grid
+                    is reconfigured (not cleaned) between the calls.  Every call is checked on its own and H(b') must
+                    equal H(b): the response must not depend on what was computed before (two different callables with
+                    the same __name__, a sweep of one parameter on one object, chained calls).
+* part `spec`     : all 2^7 presence/absence patterns of {landa_D, fc, kL, L, N, dneff, vdneff} (two spellings of one
+                    consistent value set quick, four thorough): under-determined gratings must raise
                     ValueError, the combinations the docstring lists must compute.
 * part `docode`   : NON-DECIDING diagnostic: complex H (filtfilt=False) against an independent high-accuracy
                     integration (Riccati form, DOP853) of the coupled-mode equations the docstring documents.
                     Only the measured deviation is recorded (see notes: the statement of C16 does not
                     constrain the sign of the chirp, |H| is invariant under F -> -F for symmetric profiles).
 
-Every case calls the REAL FBG (print_params=False, retH=True) and compares with closed forms that are
+Every case calls the REAL FBG and compares with closed forms that are
 computed here from the design numbers only (scipy.quad of the reference profile, tanh^2, sinh^2/cosh^2).
 """
 from __future__ import annotations
 
+import contextlib
+import functools
 import hashlib
+import io
 import itertools
 import math
+import warnings
 
 import numpy as np
 from scipy.constants import c as C0, pi
@@ -38,7 +57,7 @@ ID = 'C16'
 LEVEL = 'exploration'
 NONTRIVIAL = ('designs whose computed spectrum is neither ~0 nor flat (max|H| > 1e-2 and max|H|-min|H| > 1e-3), '
               'counted per distinct design vector; for the specification patterns: every pattern that reached a '
-              'decision (ValueError or a computed H)')
+              'decision (ValueError or a computed H); for the sequences: every ordered pair')
 
 NEFF = 1.45          # library default, never overridden
 EPS = np.finfo(float).eps
@@ -65,48 +84,86 @@ def seeded_profiles(seed):
     return out
 
 
-def axes(seed):
+# the axes of the first release and how many of their (leading) members it had: the 3-deviation part uses these
+CORE = {'fs': 3, 'n': 5, 'layout': 2, 'inp': 3, 'filtfilt': 2, 'kL': 6, 'vd': 3, 'F': 5, 'apod': 11, 'route': 6}
+
+
+def axes(seed, full=True):
+    """(name, members); the first member of every axis is the baseline.  `full=False` is the thin slice of the quick
+    tier: a subset of every alphabet, so that the thorough lattice contains the quick one."""
+    def pick(quick, more):
+        return quick + (more if full else [])
     return [
-        ('fs', [100, 20, 400]),                                   # GS/s  (gv: sps=fs, R=1e9)
-        ('n', [256, 1024, 4096, 257, 1001]),                      # input length (two odd lengths)
-        ('layout', ['1pol', '2pol']),
-        ('inp', ['impulse', 'random', 'gauss']),
+        # GS/s; 33.3 is a non-integer rate (set as sps=10, R=fs/10)
+        ('fs', [100, 20, 400, 33.3]),
+        # 2^8, 2^10, 2^12; 257 odd prime; 1001 = 7.11.13 odd, non-smooth; 3000 even, not a power of two;
+        # 4093 the largest prime below 2^12; 509 prime, 4095 = 2^12 - 1, 2^9 + 2
+        ('n', pick([256, 1024, 4096, 257, 1001, 3000, 4093], [509, 4095, 514])),
+        ('layout', pick(['1pol', '2pol', '2pol-zero2', '2pol-dup', '1pol-noise', '2pol-noise1'],
+                        ['2pol-noise', '1pol-noise0', '1pol-noisef32', '1x-2d'])),
+        ('inp', pick(['impulse', 'random', 'gauss', 'int64', 'uint8', 'bool', 'float32', 'complex64',
+                      'random@1e-12', 'random@1e6', 'dc'],
+                     ['int8', 'int16', 'int32', 'float16', 'intfloat', 'random@1e-9', 'random@1e-6'])),
         ('filtfilt', [True, False]),
+        ('call', ['retH', 'noretH', 'print', 'positional']),
         ('kL', [1.0, 0.5, 2.0, 0.1, 4.0, 8.0]),
+        ('kLform', ['periods', 'exact']),
         ('vd', [1e-4, 1e-3, 1e-5]),
-        ('F', [0.0, 5.0, -5.0, 20.0, -20.0]),
+        ('F', pick([0.0, 5.0, -5.0, 20.0, -20.0], [0.37, -12.5])),
         ('apod', [('name', 'uniform'), ('name', 'rcos'), ('name', 'gaussian'), ('name', 'parabolic'),
                   ('fn', 'uniform'), ('fn', 'rcos'), ('fn', 'gaussian'), ('fn', 'parabolic')]
-         + seeded_profiles(seed) + [('tilt', 0.8)]),
+         + seeded_profiles(seed) + [('tilt', 0.8), ('skew', 0.2), ('obj', 'gaussian'), ('partial', 'parabolic')]
+         + (pick([], [('expt', 1.5), ('tilt', -0.8), ('npfn', 'rcos'), ('obj', 'uniform')]))),
         ('route', [('fc', 'kL'), ('landa_D', 'kL'), ('fc', 'L'), ('fc', 'N'), ('landa_D', 'L'), ('landa_D', 'N')]),
+        ('ptype', ['float', 'np64', 'int', 'npint', '0d', 'f32']),
+        ('gv', pick(['sps,R', 'fs', 'R,fs', 'wl1310', 'N', 'reconf'], ['sps,fs', 'wl1625'])),
+        ('off', [0, 5, -7]),                                      # Bragg frequency = gv.f0 + off bins
     ]
 
 
-def deviations(ax, k):
-    """all points that differ from the baseline (first value of every axis) in at most k axes,
-    ordered by number of deviations, then by axis order, then by value order"""
+def _legal(p):
+    d = dict(p)
+    # the exact kL is not a whole number of periods: only the kL and L spellings describe that grating
+    return not (d['kLform'] == 'exact' and d['route'][1] == 'N')
+
+
+def deviations(ax, k, exactly=None, only=None):
+    """all points that differ from the baseline (first value of every axis) in at most k axes (`only`: {axis: number of
+    leading members} restricts the deviating axes and their members), ordered by number of deviations, then by axis
+    order, then by value order"""
     names = [a for a, _ in ax]
     base = [v[0] for _, v in ax]
+    free = [i for i, a in enumerate(names) if only is None or a in only]
+    member = [v if only is None or a not in only else v[:only[a]] for a, v in ax]
     out = []
-    for r in range(k + 1):
-        for idxs in itertools.combinations(range(len(ax)), r):
-            for vals in itertools.product(*[ax[i][1][1:] for i in idxs]):
+    for r in ([exactly] if exactly is not None else range(k + 1)):
+        for idxs in itertools.combinations(free, r):
+            for vals in itertools.product(*[member[i][1:] for i in idxs]):
                 p = list(base)
                 for i, v in zip(idxs, vals):
                     p[i] = v
-                out.append(tuple(zip(names, p)))
+                p = tuple(zip(names, p))
+                if _legal(p):
+                    out.append(p)
     return out
+
+
+def point(ax, **dev):
+    """the baseline with the named axes replaced (values need not be alphabet members)"""
+    return tuple((a, dev.get(a, v[0])) for a, v in ax)
 
 
 # ---------------------------------------------------------------------------- reference profiles
 def ref_profile(apod):
     kind = apod[0]
-    if kind in ('name', 'fn'):
+    if kind in ('name', 'fn', 'obj', 'partial', 'npfn', 'named'):
         n = apod[1]
         if n == 'uniform':
             return lambda z: 1.0
-        if n == 'rcos':        # raised cosine of C19 with alpha=1, T=2 on |z| <= 1/2 (tapers to zero)
-            return lambda z: 0.5 * (1.0 + math.cos(2.0 * math.pi * z))
+        if n == 'rcos':        # raised cosine of C19 with alpha=1, T=2 on |z| <= 1/2 (tapers to zero).  Zero beyond the
+            # grating like the built-in: scipy's choice of the first step may probe the profile at |z| > 1/2, and an
+            # "equal callable" has to be equal there too for the two solver runs to take the same steps
+            return lambda z: 0.5 * (1.0 + math.cos(2.0 * math.pi * z)) if abs(z) <= 0.5 else 0.0
         if n == 'gaussian':
             return lambda z: math.exp(-4.0 * math.log(2.0) * (3.0 * z) ** 2)
         if n == 'parabolic':
@@ -115,23 +172,56 @@ def ref_profile(apod):
     if kind == 'seed':
         a, b = apod[1], apod[2]
         return lambda z: 1.0 + a * math.cos(2.0 * math.pi * z) + b * z * z
-    if kind == 'tilt':
+    if kind == 'tilt':         # not even in z
         t = apod[1]
         return lambda z: 1.0 + t * z
+    if kind == 'skew':         # not even in z: off-centre bump on a pedestal
+        s = apod[1]
+        return lambda z: 0.3 + math.exp(-8.0 * (z - s) ** 2)
+    if kind == 'expt':         # not even in z
+        t = apod[1]
+        return lambda z: math.exp(t * z)
     raise KeyError(kind)
 
 
+class _Profile:
+    """a callable OBJECT (no __name__, no __qualname__ of its own)"""
+
+    def __init__(self, f):
+        self.f = f
+
+    def __call__(self, z):
+        return self.f(z)
+
+
+def _scaled(f, z, gain=1.0):
+    return gain * f(z)
+
+
 def lib_apod(apod):
-    """what is handed to FBG: the name, or a plain python callable of a scalar z"""
-    if apod[0] == 'name':
+    """what is handed to FBG: the name, or a python callable of a scalar z in one of several callable forms"""
+    kind = apod[0]
+    if kind == 'name':
         return apod[1]
-    return ref_profile(apod)
+    f = ref_profile(apod)
+    if kind == 'obj':
+        return _Profile(f)
+    if kind == 'partial':                      # functools.partial has no __name__
+        return functools.partial(_scaled, f, gain=1.0)
+    if kind == 'npfn':                         # numpy arithmetic, returns numpy scalars
+        return lambda z: np.where(np.abs(z) <= 0.5, np.float64(0.5) * (1.0 + np.cos(2.0 * np.pi * np.asarray(z))), 0.0)
+    if kind == 'named':                        # different functions that share __name__ AND __qualname__
+
+        def apo(z):
+            return f(z)
+        return apo
+    return f                                   # lambdas: all share the name '<lambda>'
 
 
 def twin(apod):
     if apod[0] == 'name':
         return ('fn', apod[1])
-    if apod[0] == 'fn':
+    if apod[0] in ('fn', 'obj', 'partial', 'npfn', 'named'):
         return ('name', apod[1])
     return None
 
@@ -142,52 +232,161 @@ def profile_integral(apod):
 
 
 def apod_label(apod):
-    return apod[1] if apod[0] in ('name', 'fn') else apod[0]
+    return apod[1] if apod[0] in ('name', 'fn', 'obj', 'partial', 'npfn', 'named') else apod[0]
+
+
+# ---------------------------------------------------------------------------- grid histories
+def set_grid(mode, fs_g, clean=True):
+    """configure gv so that gv.fs = fs_g GS/s by the given history; returns gv"""
+    from opticomlib.typing import gv
+    fs = fs_g * 1e9
+    if float(fs_g).is_integer():
+        sr = dict(sps=int(fs_g), R=1e9)
+    else:
+        sr = dict(sps=10, R=fs / 10)
+    with warnings.catch_warnings():
+        warnings.simplefilter('ignore')
+        if clean:
+            gv.clean()
+        if mode == 'sps,R':
+            gv(**sr)
+        elif mode == 'sps,fs':
+            gv(sps=16, fs=fs)
+        elif mode == 'R,fs':                   # fs/R = 12.5: not an integer
+            gv(R=fs / 12.5, fs=fs)
+        elif mode == 'fs':
+            gv(fs=fs)
+        elif mode == 'wl1310':
+            gv(wavelength=1310e-9, **sr)
+        elif mode == 'wl1625':
+            gv(wavelength=1625e-9, **sr)
+        elif mode == 'N':
+            gv(N=8, **sr)
+        elif mode == 'reconf':                 # another grid first (other rate, wavelength, slot count), then the wanted one
+            gv(sps=8, R=5e9, wavelength=1300e-9, N=4)
+            gv(**sr)
+        else:
+            raise KeyError(mode)
+    if not abs(float(gv.fs) - fs) < 1.0:
+        raise AssertionError(('gv.fs', float(gv.fs), fs, mode))
+    return gv
 
 
 # ---------------------------------------------------------------------------- design -> call
-def grating(kL, vd, f0):
-    """the grating of the design, with an integer number of periods so that kL, L and N say the same thing"""
-    lam = C0 / f0
+def grating(kL, vd, f_b, exact=False):
+    """the grating of the design.  exact=False: a whole number of periods so that kL, L and N say the same thing;
+    exact=True: kL is used as it is (L = kL lambda / (pi vdneff); N is not a way to describe it)"""
+    lam = C0 / f_b
+    if exact:
+        return dict(lam=lam, n_per=None, kL=kL, L=kL * lam / (pi * vd))
     n_per = max(1, int(round(kL * 2.0 * NEFF / (pi * vd))))
     kL_eff = pi * vd * n_per / (2.0 * NEFF)
     L = n_per * lam / (2.0 * NEFF)
     return dict(lam=lam, n_per=n_per, kL=kL_eff, L=L)
 
 
-def route_kwargs(route, g, f0, vd):
+def _f32_exact(v):
+    with np.errstate(all='ignore'):
+        return float(np.float32(v)) == float(v)
+
+
+def wrap(ptype, name, v):
+    """the scalar type a design number is handed over in (the VALUE never changes)"""
+    integral = name == 'N' or (name in ('kL', 'F') and float(v).is_integer())
+    if ptype == 'float':
+        return int(v) if name == 'N' else float(v)
+    if ptype == 'np64':
+        return np.int64(v) if name == 'N' else np.float64(v)
+    if ptype == 'int':
+        return int(v) if integral else float(v)
+    if ptype == 'npint':
+        return np.int64(v) if integral else np.float64(v)
+    if ptype == '0d':
+        return np.array(int(v)) if name == 'N' else np.array(float(v))
+    if ptype == 'f32':                          # only where float32 holds the same number
+        if name == 'N':
+            return np.int32(v)
+        return np.float32(v) if _f32_exact(v) else float(v)
+    raise KeyError(ptype)
+
+
+def route_kwargs(route, g, f_b, vd, F=0.0, ptype='float'):
     centre, length = route
-    kw = {'vdneff': vd}
+    kw = {'vdneff': vd, 'F': F}
     if centre == 'fc':
-        kw['fc'] = f0
+        kw['fc'] = f_b
     else:
-        kw['landa_D'] = C0 / f0
+        kw['landa_D'] = C0 / f_b
     if length == 'kL':
         kw['kL'] = g['kL']
     elif length == 'L':
         kw['L'] = g['L']
     else:
         kw['N'] = g['n_per']
-    return kw
+    return {k: wrap(ptype, k, v) for k, v in kw.items()}
 
 
-def make_input(kind, layout, n, seed):
-    rows = 1 if layout == '1pol' else 2
+_INT_RANGE = {'int8': (-2 ** 7, 2 ** 8), 'uint8': (0, 2 ** 8), 'int16': (-2 ** 15, 2 ** 16), 'int32': (-2 ** 31, 2 ** 32),
+              'int64': (-2 ** 61, 2 ** 62)}
+
+
+def make_rows(kind, rows, n, seed):
+    """the sample values of the input field, one array per polarisation (content AND sample dtype)"""
     out = []
     for r in range(rows):
         if kind == 'impulse':           # flat spectrum: the output spectrum IS H
             x = np.zeros(n, dtype=complex)
             x[3 + 5 * r] = 1.0 + 0.5j * r
-        elif kind == 'random':          # seeded random field (content only)
+        elif kind == 'random' or kind.startswith('random@') or kind in ('complex64', 'dc'):
             rng = np.random.default_rng([int(seed), 1600 + r, n])
             x = rng.standard_normal(n) + 1j * rng.standard_normal(n)
-        elif kind == 'gauss':           # real dtype pulse
+            if kind.startswith('random@'):          # the same field at another scale
+                x = x * float(kind.split('@')[1])
+            elif kind == 'complex64':
+                x = x.astype(np.complex64)
+            elif kind == 'dc':                      # large offset, small variation
+                x = 1e3 + 1e-3 * x
+        elif kind in ('gauss', 'float32', 'float16'):   # real dtype pulse
             t = (np.arange(n) - n / 2 - 7 * r) / (n / 16.0)
             x = np.exp(-t * t) * (1.0 + r)
+            if kind != 'gauss':
+                x = x.astype(kind)
+        elif kind in _INT_RANGE or kind == 'intfloat':  # integer dtypes over their whole range (python ints: no wrap here)
+            lo, span = _INT_RANGE['int8' if kind == 'intfloat' else kind]
+            step = span // 7 + 1 + 2 * r
+            x = np.array([lo + (i * step + 11 * r) % span for i in range(n)], dtype=float if kind == 'intfloat' else kind)
+        elif kind == 'bool':
+            x = np.array([(i * (3 + r)) % 7 in (0, 2, 3) for i in range(n)], dtype=bool)
         else:
             raise KeyError(kind)
         out.append(x)
-    return out[0] if rows == 1 else np.array(out)
+    return out
+
+
+def build_input(kind, layout, n, seed):
+    """the optical_signal handed to FBG"""
+    from opticomlib.typing import optical_signal
+    base = layout.split('-')[0]
+    if layout == '2pol-dup':                        # one row, duplicated by the constructor
+        return optical_signal(make_rows(kind, 1, n, seed)[0], n_pol=2)
+    if layout == '1x-2d':                           # (1, n) array -> 1 polarisation
+        return optical_signal(np.array(make_rows(kind, 1, n, seed)), n_pol=1)
+    rows = make_rows(kind, 1 if base == '1pol' else 2, n, seed)
+    if layout == '2pol-zero2':
+        rows[1] = np.zeros_like(rows[1])
+    sig = rows[0] if base == '1pol' else np.array(rows)
+    noise = None
+    if 'noise' in layout:
+        rng = np.random.default_rng([int(seed), 1699, n])
+        scale = 0.1 * float(np.abs(np.asarray(sig, dtype=complex)).max())
+        noise = scale * (rng.standard_normal(np.shape(sig)) + 1j * rng.standard_normal(np.shape(sig)))
+        if layout.endswith('noise0'):               # present but all-zero
+            noise = np.zeros(np.shape(sig))
+        elif layout.endswith('noise1'):             # only in the first polarisation
+            noise[1] = 0.0
+        elif layout.endswith('noisef32'):           # real, of another dtype than the signal
+            noise = noise.real.astype(np.float32)
+    return optical_signal(sig, noise)
 
 
 def freq_axis(n, fs):
@@ -195,11 +394,12 @@ def freq_axis(n, fs):
     return np.fft.fftshift(np.fft.fftfreq(n, d=1.0 / fs))
 
 
-def uniform_closed_form(n, fs, f0, g, vd):
+def uniform_closed_form(n, fs, f0, g, vd, f_b=None):
     """|H|^2 = sinh^2 g / (cosh^2 g - d^2/k^2), g = sqrt(k^2 - d^2) (complex beyond the band edge);
     d = 2 pi neff (1/lambda - 1/lambda_D) L, k = pi vdneff L / lambda  (Erdogan 1997, eq. 12-13; docstring Notes)"""
+    f_b = f0 if f_b is None else f_b
     f = f0 + freq_axis(n, fs)
-    d = 2.0 * pi * NEFF * (f - f0) / C0 * g['L']
+    d = 2.0 * pi * NEFF * (f - f_b) / C0 * g['L']
     k = pi * vd * g['L'] * f / C0
     gg = np.sqrt((k * k - d * d).astype(complex))
     with np.errstate(all='ignore'):
@@ -220,9 +420,17 @@ def _sha(*arrs):
 
 
 # ---------------------------------------------------------------------------- generic oracles on one call
-def check_call(x_arr, y, H, n, tag):
-    """passivity at every bin, exact filtering per row, energy.  returns (viol, info)"""
+def snapshot(x):
+    """the field as it is handed over (copied immediately before the call)"""
+    return np.array(x.signal, copy=True), (None if x.noise is None else np.array(x.noise, copy=True))
+
+
+def check_call(snap, y, H, tag):
+    """passivity at every bin, exact filtering per row, energy.  returns (viol, info).
+    `snap` = (signal, noise) of the input object immediately before the call."""
     from opticomlib.typing import optical_signal
+    sig0, noi0 = snap
+    n = sig0.shape[-1]
     viol = []
     info = {}
     if not isinstance(y, optical_signal):
@@ -232,8 +440,8 @@ def check_call(x_arr, y, H, n, tag):
     if H.shape != (n,):
         viol.append(('shape:H', f'{tag}: H.shape={H.shape}, expected ({n},)'))
         return viol, info
-    if np.asarray(y.signal).shape != np.asarray(x_arr).shape:
-        viol.append(('shape:output', f'{tag}: output shape {np.asarray(y.signal).shape} != input shape {np.asarray(x_arr).shape}'))
+    if np.asarray(y.signal).shape != sig0.shape:
+        viol.append(('shape:output', f'{tag}: output shape {np.asarray(y.signal).shape} != input shape {sig0.shape}'))
         return viol, info
     aH = np.abs(H)
     if not np.isfinite(aH).all():
@@ -246,110 +454,252 @@ def check_call(x_arr, y, H, n, tag):
         i = int(aH.argmax())
         viol.append(('passive:|H|>1', f'{tag}: max|H| = {mx:.6g} at bin {i} of {n} (> 1 + {TOL_PASSIVE})'))
     # exact filtering, per row
-    xin = np.atleast_2d(np.asarray(x_arr))
+    xin = np.atleast_2d(sig0)
     yout = np.atleast_2d(np.asarray(y.signal))
     Hs = np.fft.ifftshift(H)
     par = 'odd' if n % 2 else 'even'
+    dt = 'complex' if np.iscomplexobj(sig0) else ('real' if sig0.dtype.kind == 'f' else 'int')
     worst = 0.0
-    for r in range(xin.shape[0]):
-        ref = np.fft.ifft(np.fft.fft(xin[r]) * Hs)
-        nrm = float(np.linalg.norm(xin[r]))
-        tol = 64.0 * EPS * (math.log2(n) + 1.0) * nrm * max(1.0, mx) + 1e-300
-        err = float(np.abs(yout[r] - ref).max())
-        worst = max(worst, err / (nrm + 1e-300))
-        if not (err <= tol):
-            viol.append((f'filter:output!=ifft(fft(in)*ifftshift(H)):{xin.shape[0]}pol-row{r}:{par}',
-                         f'{tag}: row {r}: max|out - ifft(fft(in)*ifftshift(H))| = {err:.3g} > {tol:.3g}'))
-        e_in = float(np.sum(np.abs(xin[r]) ** 2))
-        e_out = float(np.sum(np.abs(yout[r]) ** 2))
-        if not (e_out <= e_in * (1.0 + TOL_ENERGY)):
-            viol.append(('energy:out>in', f'{tag}: row {r}: energy out {e_out:.6g} > energy in {e_in:.6g} (1+{TOL_ENERGY})'))
+
+    def filt(v):
+        return np.fft.ifft(np.fft.fft(v) * Hs)
+    if noi0 is None:
+        for r in range(xin.shape[0]):
+            ref = filt(xin[r])
+            nrm = float(np.linalg.norm(xin[r].astype(complex)))
+            tol = 64.0 * EPS * (math.log2(n) + 1.0) * nrm * max(1.0, mx) + 1e-300
+            err = float(np.abs(yout[r] - ref).max())
+            worst = max(worst, err / (nrm + 1e-300))
+            if not (err <= tol):
+                viol.append((f'filter:output!=ifft(fft(in)*ifftshift(H)):{xin.shape[0]}pol-row{r}:{par}:{dt}',
+                             f'{tag}: row {r} ({sig0.dtype}): max|out - ifft(fft(in)*ifftshift(H))| = {err:.3g} > {tol:.3g}'))
+            e_in = float(np.sum(np.abs(xin[r].astype(complex)) ** 2))
+            e_out = float(np.sum(np.abs(yout[r]) ** 2))
+            if not (e_out <= e_in * (1.0 + TOL_ENERGY)):
+                viol.append(('energy:out>in', f'{tag}: row {r}: energy out {e_out:.6g} > energy in {e_in:.6g} (1+{TOL_ENERGY})'))
+    else:
+        # a noise component is present.  What becomes of it is outside the statement; the signal component of the
+        # output must still be "the input filtered by H" under one of the three readings of "the input":
+        # out.signal = filt(in.signal) | out.signal = filt(in.signal + in.noise) | out.signal + out.noise = filt(in.signal + in.noise)
+        nin = np.atleast_2d(noi0)
+        nout = None if y.noise is None else np.atleast_2d(np.asarray(y.noise))
+        for r in range(xin.shape[0]):
+            tot = xin[r].astype(complex) + nin[r]
+            nrm = float(np.linalg.norm(xin[r].astype(complex)) + np.linalg.norm(nin[r].astype(complex)))
+            tol = 64.0 * EPS * (math.log2(n) + 1.0) * nrm * max(1.0, mx) + 1e-300
+            errs = [float(np.abs(yout[r] - filt(xin[r])).max()), float(np.abs(yout[r] - filt(tot)).max())]
+            if nout is not None and nout.shape == yout.shape:
+                errs.append(float(np.abs(yout[r] + nout[r] - filt(tot)).max()))
+            err = min(errs)
+            worst = max(worst, err / (nrm + 1e-300))
+            if not (err <= tol):
+                viol.append((f'filter:output!=ifft(fft(in)*ifftshift(H)):{xin.shape[0]}pol-row{r}:{par}:with-noise',
+                             f'{tag}: row {r}: the signal of the output is neither the filtered signal nor the filtered '
+                             f'signal+noise (smallest max deviation {err:.3g} > {tol:.3g})'))
     info['filt_err'] = worst
     return viol, info
 
 
-def call_fbg(x_arr, kw, apod, F, filtfilt):
+def call_fbg(x, kw, apod, filtfilt, form='retH'):
+    """one real call in the given call form; returns (output, H, number of FBG calls)"""
     from opticomlib.devices import FBG
-    from opticomlib.typing import optical_signal
-    x = optical_signal(np.array(x_arr))
-    return FBG(x, apodization=lib_apod(apod), F=F, filtfilt=filtfilt, print_params=False, retH=True, **kw)
+    ap = lib_apod(apod)
+    if form == 'retH':
+        y, H = FBG(x, apodization=ap, filtfilt=filtfilt, print_params=False, retH=True, **kw)
+        return y, H, 1
+    if form == 'print':                         # the report is printed (captured here)
+        with contextlib.redirect_stdout(io.StringIO()):
+            y, H = FBG(x, apodization=ap, filtfilt=filtfilt, print_params=True, retH=True, **kw)
+        return y, H, 1
+    if form == 'positional':                    # every argument by position, in the documented order
+        y, H = FBG(x, NEFF, 1.0, kw.get('landa_D'), kw.get('fc'), kw.get('kL'), kw.get('L'), kw.get('N'), None,
+                   kw.get('vdneff'), ap, kw.get('F', 0), False, filtfilt, True)
+        return y, H, 1
+    if form == 'noretH':                        # the output of the call WITHOUT retH, H from a second call
+        y = FBG(x, apodization=ap, filtfilt=filtfilt, print_params=False, **kw)
+        _, H = FBG(x, apodization=ap, filtfilt=filtfilt, print_params=False, retH=True, **kw)
+        if isinstance(y, tuple):
+            raise AssertionError('FBG(..., retH=False) returned a tuple')
+        return y, H, 2
+    raise KeyError(form)
+
+
+# ---------------------------------------------------------------------------- the clauses about one design
+def design_oracles(d, g, gvs, H, tag):
+    """Bragg peak and (uniform) whole-spectrum closed forms for an unchirped grating; returns (viol, dev)"""
+    fs, f0, f_b = gvs
+    apod, F, vd = d['apod'], d['F'], d['vd']
+    n = np.asarray(H).shape[0]
+    viol, dev = [], {}
+    if F != 0:
+        return viol, dev
+    ic = n // 2 + d.get('off', 0)                # bin of the Bragg frequency of the design
+    R = np.abs(H) ** 2
+    integ = profile_integral(apod)
+    want = math.tanh(g['kL'] * integ) ** 2
+    got = float(R[ic])
+    dev['bragg'] = abs(got - want)
+    if not (abs(got - want) <= TOL_BRAGG):
+        viol.append((f'bragg:|H|^2!=tanh^2(kL*int):{apod[0]}:{apod_label(apod)}',
+                     f'{tag}: |H(f_B)|^2 = {got:.6f}, tanh^2({g["kL"]:.5g} * {integ:.6f}) = {want:.6f}'))
+    if apod_label(apod) == 'uniform':
+        cf = uniform_closed_form(n, fs, f0, g, vd, f_b)
+        e = np.abs(R - cf)
+        dev['uniform'] = float(e.max())
+        if not (e.max() <= TOL_UNIFORM):
+            i = int(e.argmax())
+            viol.append(('uniform:|H|^2!=sinh^2/(cosh^2-d^2/k^2)',
+                         f'{tag}: bin {i}: |H|^2 = {R[i]:.6f}, closed form {cf[i]:.6f} (max dev {e.max():.3g})'))
+    return viol, dev
+
+
+def design_tag(d, g):
+    return (f"fs={d['fs']}G n={d['n']} {d['layout']} {d['inp']} filtfilt={d['filtfilt']} call={d['call']} kL={g['kL']:.6g}"
+            f"({d['kLform']}) vd={d['vd']:g} F={d['F']:g} apod={d['apod']} route={d['route']} ptype={d['ptype']} "
+            f"gv={d['gv']} off={d['off']}")
 
 
 # ---------------------------------------------------------------------------- case: one design
 def design_case(case):
-    seed, point = case
-    d = dict(point)
+    seed, pt = case
+    d = dict(pt)
     n, F, apod, route, vd = d['n'], d['F'], d['apod'], d['route'], d['vd']
-    gv = gv_reset(sps=int(d['fs']), R=1e9)
+    gv = set_grid(d['gv'], d['fs'])
     fs, f0 = float(gv.fs), float(gv.f0)
-    assert abs(fs - d['fs'] * 1e9) < 1.0, fs
-    g = grating(d['kL'], vd, f0)
-    x_arr = make_input(d['inp'], d['layout'], n, seed)
-    tag = (f"fs={d['fs']}G n={n} {d['layout']} {d['inp']} filtfilt={d['filtfilt']} kL={g['kL']:.6g} vd={vd:g} F={F:g} "
-           f"apod={apod} route={route}")
+    f_b = f0 + d['off'] * fs / n
+    g = grating(d['kL'], vd, f_b, exact=(d['kLform'] == 'exact'))
+    x = build_input(d['inp'], d['layout'], n, seed)
+    tag = design_tag(d, g)
     viol = []
-    calls = 1
-    y, H = call_fbg(x_arr, route_kwargs(route, g, f0, vd), apod, F, d['filtfilt'])
-    v, info = check_call(x_arr, y, H, n, tag)
+    snap = snapshot(x)
+    y, H, calls = call_fbg(x, route_kwargs(route, g, f_b, vd, F, d['ptype']), apod, d['filtfilt'], d['call'])
+    v, info = check_call(snap, y, H, tag)
     viol += v
+    # diagnostic only (the statement does not say that the operand stays untouched): was the input object written to?
+    touched = not (np.array_equal(snap[0], x.signal) and (snap[1] is None or np.array_equal(snap[1], x.noise)))
     dev = {}
     ok_shape = 'maxH' in info
     if ok_shape:
-        ic = n // 2                                  # bin of gv.f0 = Bragg frequency of the design
-        R = np.abs(H) ** 2
-        if F == 0:
-            integ = profile_integral(apod)
-            want = math.tanh(g['kL'] * integ) ** 2
-            got = float(R[ic])
-            dev['bragg'] = abs(got - want)
-            if not (abs(got - want) <= TOL_BRAGG):
-                viol.append((f'bragg:|H|^2!=tanh^2(kL*int):{apod[0]}:{apod_label(apod)}',
-                             f'{tag}: |H(f_B)|^2 = {got:.6f}, tanh^2({g["kL"]:.5g} * {integ:.6f}) = {want:.6f}'))
-            if apod_label(apod) == 'uniform':
-                cf = uniform_closed_form(n, fs, f0, g, vd)
-                e = np.abs(R - cf)
-                dev['uniform'] = float(e.max())
-                if not (e.max() <= TOL_UNIFORM):
-                    i = int(e.argmax())
-                    viol.append(('uniform:|H|^2!=sinh^2/(cosh^2-d^2/k^2)',
-                                 f'{tag}: bin {i}: |H|^2 = {R[i]:.6f}, closed form {cf[i]:.6f} (max dev {e.max():.3g})'))
+        v, dev = design_oracles(d, g, (fs, f0, f_b), H, tag)
+        viol += v
         tw = twin(apod)
         if tw is not None:
-            calls += 1
-            y2, H2 = call_fbg(x_arr, route_kwargs(route, g, f0, vd), tw, F, d['filtfilt'])
+            snap2 = snapshot(x)                     # the same object is handed over again
+            y2, H2, c2 = call_fbg(x, route_kwargs(route, g, f_b, vd, F, d['ptype']), tw, d['filtfilt'])
+            calls += c2
             H2 = np.asarray(H2)
-            e = float(np.abs(H2 - H).max()) if H2.shape == H.shape else float('inf')
+            e = float(np.abs(H2 - H).max()) if H2.shape == np.shape(H) else float('inf')
             dev['twin'] = e
             if not (e <= TOL_SAME):
                 viol.append((f'twin:name!=callable:{apod[1]}',
                              f'{tag}: max|H(name) - H(equal callable)| = {e:.3g} > {TOL_SAME}'))
+            else:
+                viol += check_call(snap2, y2, H2, tag + ' [twin call, same input object]')[0]
         if route != ('fc', 'kL'):
-            calls += 1
-            y3, H3 = call_fbg(x_arr, route_kwargs(('fc', 'kL'), g, f0, vd), apod, F, d['filtfilt'])
+            y3, H3, c3 = call_fbg(x, route_kwargs(('fc', 'kL'), g, f_b, vd, F), apod, d['filtfilt'])
+            calls += c3
             H3 = np.asarray(H3)
-            e = float(np.abs(H3 - H).max()) if H3.shape == H.shape else float('inf')
+            e = float(np.abs(H3 - H).max()) if H3.shape == np.shape(H) else float('inf')
             dev['route'] = e
             if not (e <= TOL_SAME):
                 viol.append((f'route:{route[0]},{route[1]}!=fc,kL',
                              f'{tag}: max|H({route}) - H(fc,kL)| = {e:.3g} > {TOL_SAME} (N={g["n_per"]} periods, L={g["L"]:.6g} m)'))
     nt = False
     if ok_shape and info['maxH'] > 1e-2 and info['maxH'] - info['minH'] > 1e-3:
-        nt = ('design',) + tuple(v for k, v in point if k not in ('inp', 'layout', 'filtfilt'))
+        nt = ('design',) + tuple(v for k, v in pt if k not in ('inp', 'layout', 'filtfilt', 'call', 'ptype', 'gv'))
     dev['maxH'] = info.get('maxH', float('nan'))
     dev['filt'] = info.get('filt_err', float('nan'))
     obs = _sha(np.asarray(H), np.asarray(y.signal)) if ok_shape else 'BAD-SHAPE'
+    weak = bool(ok_shape and F == 0 and math.tanh(g['kL'] * profile_integral(apod)) ** 2 < 0.01)
     return res(viol=viol, obs=obs, nontrivial=nt, stats={'fbg_calls': calls, 'F0_peak_checks': int(F == 0 and ok_shape),
                                                          'uniform_spectrum_checks': int('uniform' in dev),
                                                          'twin_checks': int('twin' in dev), 'route_checks': int('route' in dev),
-                                                         'odd_length_cases': int(n % 2)},
+                                                         'odd_length_cases': int(n % 2),
+                                                         'weak_gratings_peak_below_1pct': int(weak),
+                                                         'non_complex_input_cases': int(not np.iscomplexobj(snap[0])),
+                                                         'noisy_input_cases': int(snap[1] is not None),
+                                                         'diagnostic_input_object_modified': int(touched)},
                payload=dev)
+
+
+# ---------------------------------------------------------------------------- case: call sequence in one process
+def seq_menu(seed):
+    """calls that differ from the baseline design in one respect"""
+    return [
+        ('base', {}),
+        ('kL2', {'kL': 2.0}),
+        ('vd1e-3', {'vd': 1e-3}),
+        ('F5', {'F': 5.0}),
+        ('filtfilt-off', {'filtfilt': False}),
+        ('gaussian', {'apod': ('name', 'gaussian')}),
+        ('def-apo:gaussian', {'apod': ('named', 'gaussian')}),       # two different `def apo(z)` ...
+        ('def-apo:parabolic', {'apod': ('named', 'parabolic')}),
+        ('lambda:tilt', {'apod': ('tilt', 0.8)}),                    # ... and two different lambdas
+        ('lambda:seeded', {'apod': seeded_profiles(seed)[0]}),
+        ('landa_D,N', {'route': ('landa_D', 'N')}),
+        ('n257', {'n': 257}),
+        ('fs20', {'fs': 20}),
+        ('wl1310', {'gv': 'wl1310'}),
+        ('2pol-int', {'layout': '2pol', 'inp': 'int64'}),
+    ]
+
+
+def seq_case(case):
+    seed, ia, ib = case
+    menu = seq_menu(seed)
+    ax = axes(seed)
+    (na, da), (nb, db) = menu[ia], menu[ib]
+    pa, pb = dict(point(ax, **da)), dict(point(ax, **db))
+    from opticomlib.typing import gv
+    gv.clean()
+    inputs = {}
+
+    def one(d, x=None, first=False):
+        g_ = set_grid(d['gv'], d['fs'], clean=False)          # reconfigured, never cleaned, between the calls
+        fs, f0 = float(g_.fs), float(g_.f0)
+        f_b = f0
+        g = grating(d['kL'], d['vd'], f_b)
+        if x is None:
+            key = (d['inp'], d['layout'], d['n'])
+            if key not in inputs:
+                inputs[key] = build_input(d['inp'], d['layout'], d['n'], seed)
+            x = inputs[key]                                    # ONE object per (field, layout, length), shared by the calls
+        snap = snapshot(x)
+        y, H, calls = call_fbg(x, route_kwargs(d['route'], g, f_b, d['vd'], d['F']), d['apod'], d['filtfilt'])
+        return dict(d=d, g=g, gvs=(fs, f0, f_b), snap=snap, y=y, H=np.asarray(H))
+
+    viol = []
+    r1 = one(pb)
+    r2 = one(pa)
+    chained = pa['n'] == pb['n']
+    r3 = one(pb, x=r2['y'] if chained else None)               # the output of a is the input of b'
+    shas = []
+    for pos, nm, r in ((1, nb, r1), (2, na, r2), (3, nb, r3)):
+        tag = f'seq [{nb} ; {na} ; {nb}{" on the output of " + na if chained else ""}] call {pos} ({nm})'
+        v, info = check_call(r['snap'], r['y'], r['H'], tag)
+        if 'maxH' in info:
+            v2, _ = design_oracles(r['d'], r['g'], r['gvs'], r['H'], tag)
+            v += v2
+            shas.append(_sha(r['H'], np.asarray(r['y'].signal)))
+        else:
+            shas.append('BAD-SHAPE')
+        viol += [(f'seq:{k}', m) for k, m in v]
+    if r3['H'].shape == r1['H'].shape:
+        e = float(np.abs(r3['H'] - r1['H']).max())
+        if not (e <= TOL_SAME):
+            viol.append((f'seq:H-depends-on-the-call-before:{na}',
+                         f'seq [{nb} ; {na} ; {nb}]: max|H(third call) - H(first call)| = {e:.3g} > {TOL_SAME} for the same design'))
+    return res(viol=viol, obs=tuple(shas), nontrivial=('seq', ia, ib),
+               stats={'fbg_calls': 3, 'seq_cases': 1, 'chained_calls': int(chained)}, payload=None)
 
 
 # ---------------------------------------------------------------------------- case: presence pattern
 SPEC_NAMES = ['landa_D', 'fc', 'kL', 'L', 'N', 'dneff', 'vdneff']
 SPEC_SETS = [
-    dict(fs=100, kL=1.0, vd=1e-4),       # quick + thorough
-    dict(fs=400, kL=4.0, vd=1e-3),       # thorough
+    dict(fs=100, kL=1.0, vd=1e-4, ptype='float'),       # quick + thorough
+    dict(fs=100, kL=1.0, vd=1e-4, ptype='np64'),        # quick + thorough: numpy scalars
+    dict(fs=400, kL=4.0, vd=1e-3, ptype='float'),       # thorough
+    dict(fs=400, kL=4.0, vd=1e-3, ptype='0d'),          # thorough: 0-d arrays
 ]
 DOCUMENTED = set()
 for _c in ('fc', 'landa_D'):
@@ -382,7 +732,6 @@ def spec_class(present):
 
 def spec_case(case):
     from opticomlib.devices import FBG
-    from opticomlib.typing import optical_signal
     si, mask = case
     vs = SPEC_SETS[si]
     gv = gv_reset(sps=int(vs['fs']), R=1e9)
@@ -390,15 +739,16 @@ def spec_case(case):
     g = grating(vs['kL'], vs['vd'], f0)
     vals = dict(landa_D=C0 / f0, fc=f0, kL=g['kL'], L=g['L'], N=g['n_per'], dneff=vs['vd'], vdneff=vs['vd'])
     present = [nm for i, nm in enumerate(SPEC_NAMES) if (mask >> i) & 1]
-    kw = {nm: vals[nm] for nm in present}
+    kw = {nm: wrap(vs['ptype'], nm, vals[nm]) for nm in present}
     cls, why = spec_class(present)
     n = 256
-    x_arr = make_input('impulse', '2pol', n, 0)
+    x = build_input('impulse', '2pol', n, 0)
+    snap = snapshot(x)
     tag = f'set{si} present={present}'
     viol = []
     outcome = None
     try:
-        y, H = FBG(optical_signal(np.array(x_arr)), print_params=False, retH=True, **kw)
+        y, H = FBG(x, print_params=False, retH=True, **kw)
         outcome = 'computed'
     except ValueError as e:
         outcome = 'ValueError'
@@ -413,7 +763,7 @@ def spec_case(case):
         viol.append(('spec:documented-combination-raised', f'{tag}: the docstring lists this combination, FBG raised ValueError'))
     obs = (mask, outcome)
     if outcome == 'computed':
-        v, info = check_call(x_arr, y, H, n, tag)
+        v, info = check_call(snap, y, H, tag)
         viol += v
         if 'maxH' in info:
             obs = (mask, outcome, _sha(np.asarray(H)))
@@ -443,38 +793,43 @@ def riccati_reference(n, fs, f0, g, vd, apod, F):
 
 
 def docode_case(case):
-    seed, point = case
-    d = dict(point)
+    seed, pt = case
+    d = dict(pt)
     gv = gv_reset(sps=int(d['fs']), R=1e9)
     fs, f0 = float(gv.fs), float(gv.f0)
     g = grating(d['kL'], d['vd'], f0)
     n = d['n']
-    x_arr = make_input('impulse', '1pol', n, seed)
-    y, H = call_fbg(x_arr, route_kwargs(('fc', 'kL'), g, f0, d['vd']), d['apod'], d['F'], False)
+    x = build_input('impulse', '1pol', n, seed)
+    y, H, _ = call_fbg(x, route_kwargs(('fc', 'kL'), g, f0, d['vd'], d['F']), d['apod'], False)
     ref = riccati_reference(n, fs, f0, g, d['vd'], d['apod'], d['F'])
     e = float(np.abs(np.asarray(H) - ref).max())
     em = float(np.abs(np.abs(H) ** 2 - np.abs(ref) ** 2).max())
-    return res(viol=[], obs=_sha(np.asarray(H)), nontrivial=('docode',) + tuple(v for _, v in point),
-               stats={'fbg_calls': 1, 'docode_cases': 1, 'docode_dev_gt_1e-2': int(e > 1e-2)}, payload=(e, em, point))
+    return res(viol=[], obs=_sha(np.asarray(H)), nontrivial=('docode',) + tuple(v for _, v in pt),
+               stats={'fbg_calls': 1, 'docode_cases': 1, 'docode_dev_gt_1e-2': int(e > 1e-2)}, payload=(e, em, pt))
 
 
 # ---------------------------------------------------------------------------- driver
 def run(ctx):
     seed = ctx.seed
-    ax = axes(seed)
-    k = 2 if ctx.quick else 3
-    pts = deviations(ax, k)
-    ctx.rule(f'C16 lattice: every design that differs from the baseline {dict((a, v[0]) for a, v in ax)} in at most {k} of the '
-             f'{len(ax)} axes {[(a, len(v)) for a, v in ax]} ({len(pts)} designs, ordered by number of deviations); each design '
-             f'is one real FBG call (+1 with the name/callable twin of the apodisation, +1 with the (fc,kL) route when another '
-             f'route is used); gratings have an integer number of periods so kL, L and N describe the same grating; the '
-             f'grating is centred at gv.f0')
+    full = not ctx.quick
+    ax = axes(seed, full)
+    pts = deviations(ax, 2)
+    ctx.rule(f'C16 lattice: every design that differs from the baseline {dict((a, v[0]) for a, v in ax)} in at most 2 of the '
+             f'{len(ax)} axes {[(a, len(v)) for a, v in ax]} ({len(pts)} designs, ordered by number of deviations; the exact kL '
+             f'is not combined with the N spelling); each design is one real FBG call (+1 with the name/callable twin of the '
+             f'apodisation, +1 with the (fc,kL) route when another route is used, +1 when the output is taken from a call without '
+             f'retH); kLform=periods: the grating has an integer number of periods so kL, L and N describe the same grating; '
+             f'the grating is centred `off` bins from gv.f0')
     ctx.assume('numpy.fft is trusted as the definition of the DFT (output compared with ifft(fft(in)*ifftshift(H)) up to '
-               '64 eps (log2 n + 1) |in|_2 max(1,max|H|)); scipy.integrate.quad is trusted for the integral of the reference profile; '
+               '64 eps (log2 n + 1) |in|_2 max(1,max|H|), `in` = the arrays of the input object copied immediately before the call); '
+               'scipy.integrate.quad is trusted for the integral of the reference profile; '
                'the closed forms are Erdogan 1997 eq. 12-13 with k = pi vdneff L / lambda as in the docstring Notes; '
                'tolerances: passivity 5e-3, Bragg peak 2e-3, uniform spectrum 1e-2 (RK45 rtol = 1e-3), same-H 1e-9')
     ctx.assume("the reference profile of 'rcos' is 1/2 (1 + cos 2 pi z) (utils.rcos(z, alpha=1, T=2), tapers to zero at the ends); "
                "the docstring's cos(pi z) is treated as a documentation slip (DESIGN 5/C16)")
+    ctx.assume('a noise component of the input: what becomes of it is outside the statement (no value of it is asserted); the '
+               'signal of the output must be the filtered signal or the filtered signal+noise (or output signal+noise = filtered '
+               'signal+noise); the energy clause is not evaluated for noisy inputs')
     agg = {}
 
     def absorb(pl, cases):
@@ -489,36 +844,62 @@ def run(ctx):
                 else:
                     kk = 'maxdev_' + kk
                 if kk not in agg or vv > agg[kk][0]:
-                    agg[kk] = (vv, repr(dict(cs[1])))
+                    base = dict(point(ax))
+                    agg[kk] = (vv, repr({k_: v_ for k_, v_ in cs[1] if base.get(k_) != v_}))
     cases = [(seed, p) for p in pts]
     absorb(ctx.pmap('lattice', design_case, cases, horizon=180.0, chunk=1), cases)
 
     if not ctx.quick:
+        p3 = deviations(axes(seed, False), 3, exactly=3, only=CORE)
+        ctx.rule(f'C16 lattice3: the designs with exactly 3 deviations over the design axes and leading members {CORE}: {len(p3)}')
+        cases = [(seed, p) for p in p3]
+        absorb(ctx.pmap('lattice3', design_case, cases, horizon=180.0, chunk=1), cases)
+
         by = dict(ax)
         prod = []
         match_fs = {1e-4: 100, 1e-3: 400, 1e-5: 20}
         for kL, vd, apod, F in itertools.product(by['kL'], by['vd'], by['apod'], by['F']):
-            prod.append((('fs', match_fs[vd]), ('n', 256), ('layout', '1pol'), ('inp', 'impulse'), ('filtfilt', True),
-                         ('kL', kL), ('vd', vd), ('F', F), ('apod', apod), ('route', ('fc', 'kL'))))
+            prod.append(point(ax, fs=match_fs[vd], kL=kL, vd=vd, F=F, apod=apod))
         ctx.rule(f'C16 product: full product kL x vdneff x apodisation x F = {len(prod)} designs at n=256 and the sampling rate '
                  f'that resolves the stop band (vdneff 1e-5/1e-4/1e-3 -> 20/100/400 GS/s)')
         cases = [(seed, p) for p in prod]
         absorb(ctx.pmap('product', design_case, cases, horizon=180.0, chunk=1), cases)
+
+    # the limits of the quantifier, exactly and one ulp inside
+    up, dn = (lambda v: float(np.nextafter(v, np.inf))), (lambda v: float(np.nextafter(v, -np.inf)))
+    kLs = [0.1, up(0.1), dn(8.0), 8.0]
+    vds = [1e-5, up(1e-5), dn(1e-3), 1e-3]
+    Fs = [-20.0, up(-20.0), 0.0, dn(20.0), 20.0]
+    lim_ap = [('name', 'uniform'), ('name', 'gaussian')] + ([] if ctx.quick else [('tilt', 0.8), ('fn', 'rcos'), ('skew', 0.2)])
+    lim_fs = [100] if ctx.quick else [100, 20, 400]
+    lim = [point(ax, fs=fs_, kL=kL, vd=vd, F=F, apod=ap, kLform='exact')
+           for ap, fs_, kL, vd, F in itertools.product(lim_ap, lim_fs, kLs, vds, Fs)]
+    ctx.rule(f'C16 limits: kL {kLs} x vdneff {vds} x F {Fs} (the documented limits exactly and one ulp inside, exact kL) x '
+             f'apodisation {lim_ap} x fs {lim_fs} GS/s = {len(lim)} designs at n=256 (gratings with a peak reflectivity below 1 % '
+             f'included)')
+    cases = [(seed, p) for p in lim]
+    absorb(ctx.pmap('limits', design_case, cases, horizon=240.0, chunk=1), cases)
 
     # the corners of (fs, n, vdneff, kL), which the lattice (<= 3 deviations) does not reach
     cor = []
     for apod, F in ([(('name', 'uniform'), 0.0)] if ctx.quick else
                     [(('name', 'uniform'), 0.0), (('name', 'gaussian'), 0.0), (('name', 'uniform'), 20.0), (('name', 'gaussian'), 20.0)]):
         for fs_, n_, vd_, kL_ in itertools.product([20, 400], [256, 4096], [1e-3, 1e-5], [0.1, 8.0]):
-            cor.append((('fs', fs_), ('n', n_), ('layout', '1pol'), ('inp', 'impulse'), ('filtfilt', True),
-                        ('kL', kL_), ('vd', vd_), ('F', F), ('apod', apod), ('route', ('fc', 'kL'))))
-    ctx.rule(f'C16 corners: the 16 corners of (fs, n, vdneff, kL) x {len(cor) // 16} (apodisation, F) pairs = {len(cor)} designs')
+            cor.append(point(ax, fs=fs_, n=n_, kL=kL_, vd=vd_, F=F, apod=apod, kLform='exact'))
+    ctx.rule(f'C16 corners: the 16 corners of (fs, n, vdneff, kL) (exact kL) x {len(cor) // 16} (apodisation, F) pairs = {len(cor)} designs')
     cases = [(seed, p) for p in cor]
     absorb(ctx.pmap('corners', design_case, cases, horizon=240.0, chunk=1), cases)
 
-    nsets = 1 if ctx.quick else len(SPEC_SETS)
-    spec = [(si, m) for si in range(nsets) for m in sorted(range(128), key=lambda m: (bin(m).count('1'), m))]
-    ctx.rule(f'C16 spec: all 2^7 presence/absence patterns of {SPEC_NAMES} for {nsets} consistent value set(s); under-determined '
+    m = len(seq_menu(seed))
+    sq = [(seed, ia, ib) for ib in range(m) for ia in range(m) if ia != ib]
+    ctx.rule(f'C16 seq: every ordered pair (a, b) of the {m} calls {[nm for nm, _ in seq_menu(seed)]} run in one process as '
+             f'b, a, b\' on shared input objects (b\' takes the output of a when the lengths agree), gv reconfigured but not '
+             f'cleaned in between: {len(sq)} sequences, 3 calls each; every call checked on its own, H(b\') == H(b)')
+    ctx.pmap('seq', seq_case, sq, horizon=120.0)
+
+    nsets = 2 if ctx.quick else len(SPEC_SETS)
+    spec = [(si, m_) for si in range(nsets) for m_ in sorted(range(128), key=lambda m_: (bin(m_).count('1'), m_))]
+    ctx.rule(f'C16 spec: all 2^7 presence/absence patterns of {SPEC_NAMES} for {nsets} value set(s) {SPEC_SETS[:nsets]}; under-determined '
              f'(no centre, or fewer than two of index-change / kL / length) must raise ValueError; the 14 combinations listed in '
              f'the docstring must compute; determined-but-unlisted patterns may do either; whatever computes is checked for '
              f'passivity / exact filtering / energy')
@@ -532,7 +913,7 @@ def run(ctx):
     # non-deciding diagnostic against the documented coupled-mode ODE
     dpts = []
     for kL, F, apod in itertools.product([1.0, 4.0], [0.0, 5.0, -5.0, 20.0], [('name', 'uniform'), ('name', 'gaussian'),
-                                                                               ax[8][1][8], ('tilt', 0.8)]):
+                                                                               seeded_profiles(seed)[0], ('tilt', 0.8)]):
         dpts.append((('fs', 100), ('n', 256), ('kL', kL), ('vd', 1e-4), ('F', F), ('apod', apod)))
     ctx.rule(f'C16 docode (diagnostic, never a violation): {len(dpts)} designs, complex H (filtfilt=False) vs DOP853 integration of '
              f'the Riccati form of the documented coupled-mode equations; only the deviation is recorded')
@@ -544,6 +925,6 @@ def run(ctx):
                                'first_above_1e-2': next((repr(x[2]) for x in dd if x[0] > 1e-2), None)}
     ctx.extra['measured'] = {kk: {'value': float(f'{vv[0]:.4g}'), 'at': vv[1]} for kk, vv in sorted(agg.items())}
     for kk, vv in ctx.extra['measured'].items():
-        print(f'[C16] measured {kk} = {vv["value"]:.4g} at {vv["at"]}', flush=True)
+        print(f'[C16] measured {kk} = {vv["value"]:.4g} at baseline + {vv["at"]}', flush=True)
     print(f'[C16] spec outcomes: {cnt}', flush=True)
     print(f'[C16] docode diagnostic: {ctx.extra.get("docode")}', flush=True)
